@@ -2543,4 +2543,96 @@ theorem mainLoop_keeps_https (c : Config) (P : Params) {d : Name} {a : Addr} :
       · exact List.mem_append.mpr (Or.inl (List.mem_filter.mpr ⟨ha, by simpa using hp⟩))
     · exact mainLoop_keeps_https c P hm hr hd ha hp
 
+
+
+/-! ### what a plain HTTP request gets (`serve`) -/
+
+theorem serve_append_left {P : Params} {us : List URoute} {d : Option Name} :
+    ∀ {l1 l2 : List Route}, (∃ r ∈ l1, (routeServes P us d r).isSome = true) → serve P us d (l1 ++ l2) = serve P us d l1
+  | [], _, h => by obtain ⟨r, hr, _⟩ := h; simp at hr
+  | r :: l1, l2, h => by
+    simp only [List.cons_append, serve]
+    cases hr : routeServes P us d r with
+    | some a => rfl
+    | none =>
+      simp only
+      apply serve_append_left
+      obtain ⟨r', hr', hs⟩ := h
+      rcases List.mem_cons.mp hr' with rfl | h'
+      · rw [hr] at hs; cases hs
+      · exact ⟨r', h', hs⟩
+
+theorem serve_eq_of_mem {P : Params} {us : List URoute} {d : Option Name} :
+    ∀ {l : List Route}, (∃ r ∈ l, (routeServes P us d r).isSome = true) →
+      ∃ r ∈ l, routeServes P us d r = some (serve P us d l)
+  | [], h => by obtain ⟨r, hr, _⟩ := h; simp at hr
+  | r :: l, h => by
+    simp only [serve]
+    cases hr : routeServes P us d r with
+    | some a => exact ⟨r, by simp, hr⟩
+    | none =>
+      simp only
+      obtain ⟨r', hr', hs⟩ := h
+      rcases List.mem_cons.mp hr' with rfl | h'
+      · rw [hr] at hs; cases hs
+      · obtain ⟨r'', h1, h2⟩ := serve_eq_of_mem (l := l) ⟨r', h', hs⟩
+        exact ⟨r'', List.mem_cons_of_mem _ h1, h2⟩
+
+/-- if `serve` answers with a redirect, a redirect route with that port is in the list -/
+theorem serve_redir_mem {P : Params} {us : List URoute} {d : Option Name} {p : Nat} :
+    ∀ {l : List Route}, serve P us d l = Served.redir p → ∃ hs, Route.redir hs p ∈ l
+  | [], h => by simp [serve] at h
+  | r :: l, h => by
+    simp only [serve] at h
+    cases hr : routeServes P us d r with
+    | some a =>
+      rw [hr] at h
+      simp only at h
+      subst h
+      cases r with
+      | user id b => simp only [routeServes] at hr; split at hr <;> simp at hr
+      | redir hs q =>
+        refine ⟨hs, ?_⟩
+        cases hs with
+        | none => simp only [routeServes, Option.some.injEq, Served.redir.injEq] at hr; subst hr; simp
+        | some l' =>
+          simp only [routeServes] at hr
+          cases d with
+          | none => simp at hr
+          | some d' =>
+            simp only at hr
+            split at hr
+            · simp only [Option.some.injEq, Served.redir.injEq] at hr; subst hr; simp
+            · simp at hr
+    | none =>
+      rw [hr] at h
+      obtain ⟨hs, hm⟩ := serve_redir_mem (l := l) h
+      exact ⟨hs, List.mem_cons_of_mem _ hm⟩
+
+theorem mem_userRoutes : ∀ {l : List URoute} {n : Nat} {rt : Route}, rt ∈ userRoutes l n →
+    ∃ id r, rt = Route.user id (!r.hms.isEmpty) ∧ n ≤ id ∧ l[id - n]? = some r
+  | [], _, _, h => by simp [userRoutes] at h
+  | r :: l, n, rt, h => by
+    simp only [userRoutes, List.mem_cons] at h
+    rcases h with rfl | h
+    · exact ⟨n, r, rfl, Nat.le_refl _, by simp⟩
+    · obtain ⟨id, r', h1, h2, h3⟩ := mem_userRoutes h
+      refine ⟨id, r', h1, by omega, ?_⟩
+      have : id - n = (id - (n + 1)) + 1 := by omega
+      rw [this]; simpa using h3
+
+theorem userRoutes_mem_of_get : ∀ {l : List URoute} {n id : Nat} {r : URoute}, l[id]? = some r →
+    Route.user (n + id) (!r.hms.isEmpty) ∈ userRoutes l n
+  | [], _, _, _, h => by simp at h
+  | r0 :: l, n, id, r, h => by
+    cases id with
+    | zero => simp at h; subst h; simp [userRoutes]
+    | succ k =>
+      simp at h
+      have := userRoutes_mem_of_get (n := n + 1) h
+      simp only [userRoutes, List.mem_cons]
+      right
+      have e : n + (k + 1) = n + 1 + k := by omega
+      rw [e]; exact this
+
 end CaddyModel.C11
